@@ -132,7 +132,18 @@ def manystart_site(n):
     return S({'/': {'links': ['/a']}, '/a': {'links': []}}), starts
 
 
+def fanout_site(n):
+    """One index page with n links to leaf pages (wpull stores scraped links in batches of
+    1000 per page; n > 1000 crosses a batch boundary inside one page)."""
+    pages = {'/': {'links': ['/f%04d' % i for i in range(n)] + ['/f0000', '/']}}
+    for i in range(n):
+        pages['/f%04d' % i] = {'body': 'leaf', 'ctype': 'text/plain'}
+    return S(pages), ['http://a.test/']
+
+
 def get_site(params):
+    if params['site'].startswith('fanout'):
+        return fanout_site(int(params['site'][6:]))
     if params['site'].startswith('g'):
         return digraph_site(int(params['site'][1:]))
     if params['site'].startswith('manystart'):
@@ -151,10 +162,15 @@ def run(params, chooser):
     def setup(ar):
         ar.builder.factory['PipelineSeries'].concurrency = conc
 
-    ar = AppRun(site, argv, chooser, early=params.get('early', True))
+    ar = AppRun(site, argv, chooser, early=params.get('early', True),
+                horizon=params.get('horizon', 60000))
 
     def on_quiescent():
         trans[0] += 1
+        if params.get('light'):
+            # large site: reading the whole table at every quiescent point is quadratic
+            states.append(h64((len(ar.peer.requests), tuple(sorted(ar.env.completions)))))
+            return None
         rows = ar.rows() or {}
         states.append(h64((tuple(sorted((u, r['status'], r['level']) for u, r in rows.items())),
                            len(ar.peer.requests), tuple(sorted(ar.env.completions)))))
@@ -288,6 +304,12 @@ def jobs(tier, seed):
         for mask in (0b111111111, 0b010001100, 0b110101011, 0b000000110, 0b011100010):
             js.append(dict(params=dict(site='g%d' % mask, opts='r', conc=2), budget=1,
                            prefix=[]))
+    # a page whose links cross wpull's 1000-URL storage batch (one run each, no reordering)
+    js.append(dict(params=dict(site='fanout1005', opts='r', conc=1, horizon=400000, light=True), budget=0,
+                   prefix=[]))
+    if tier != 'quick':
+        js.append(dict(params=dict(site='fanout2003', opts='r', conc=2, horizon=800000,
+                                   early=False, light=True), budget=0, prefix=[]))
     if seed:
         k = seed % len(js)
         js = js[k:] + js[:k]
